@@ -1,6 +1,8 @@
 package main
 
 import (
+	"fmt"
+	"go/constant"
 	"go/token"
 	"go/types"
 	"strings"
@@ -360,49 +362,121 @@ func r11_3(c *RC) {
 			}
 		})
 		key := "auth-before:" + sd.tname + "@" + sd.fn
+		// (1) protected inside the side function itself
+		inSide := ""
 		if auth == nil {
-			c.Bad(key, fn.Pos(), "%s never calls handleAuthentication", sd.fn)
-			continue
-		}
-		errSucc := errSuccessorSingle(auth)
-		if errSucc == nil {
-			c.Bad(key, auth.Pos(), "the result of handleAuthentication is not tested in %s", sd.fn)
-			continue
-		}
-		authIf := errSucc.Preds[0]
-		nilIdx := 0
-		if authIf.Succs[0] == errSucc {
-			nilIdx = 1
-		}
-		cut := func(from *ssa.BasicBlock, idx int) bool {
-			if from == authIf && idx == nilIdx {
-				return true
+			inSide = sd.fn + " never calls handleAuthentication"
+		} else if errSucc := errSuccessorSingle(auth); errSucc == nil {
+			inSide = "the result of handleAuthentication is not tested in " + sd.fn
+		} else {
+			authIf := errSucc.Preds[0]
+			nilIdx := 0
+			if authIf.Succs[0] == errSucc {
+				nilIdx = 1
 			}
-			if iff, ok := from.Instrs[len(from.Instrs)-1].(*ssa.If); ok {
-				cv, neg := condAtom(iff.Cond)
-				if f := fieldOrigin(cv); f != nil && f.Name() == "ClientSideAuthentication" {
-					// cut the edge on which authentication is legitimately
-					// skipped; the flag may be tested directly or through a
-					// negated local (authAtServer := !ClientSideAuthentication)
-					skipIdx := 1
-					if sd.csaSkip {
-						skipIdx = 0
+			cut := func(from *ssa.BasicBlock, idx int) bool {
+				if from == authIf && idx == nilIdx {
+					return true
+				}
+				if iff, ok := from.Instrs[len(from.Instrs)-1].(*ssa.If); ok {
+					cv, neg := condAtom(iff.Cond)
+					if f := fieldOrigin(cv); f != nil && f.Name() == "ClientSideAuthentication" {
+						// cut the edge on which authentication is legitimately
+						// skipped; the flag may be tested directly or through a
+						// negated local (authAtServer := !ClientSideAuthentication)
+						skipIdx := 1
+						if sd.csaSkip {
+							skipIdx = 0
+						}
+						if neg {
+							skipIdx = 1 - skipIdx
+						}
+						if idx == skipIdx {
+							return true
+						}
 					}
-					if neg {
-						skipIdx = 1 - skipIdx
+				}
+				return false
+			}
+			if hit := reachableAvoidingCut(fn, cut, sd.target, nil); hit != nil {
+				inSide = fmt.Sprintf("%s is reachable in %s without handleAuthentication()==nil on the side that owns authentication (ClientSideAuthentication=%v skips it here): a request is read/forwarded before the credential check", sd.tname, sd.fn, sd.csaSkip)
+			} else {
+				c.OKH(key, auth.Pos(), "%s unreachable once the handleAuthentication()==nil edge and the ClientSideAuthentication==%v edge are cut", sd.tname, sd.csaSkip)
+				continue
+			}
+		}
+		// (2) the gate may have been hoisted into the caller (ServeConn):
+		// evaluate each caller with the owning configuration and a failing
+		// authentication; the side function must then not be called at all.
+		callers := p.CallsToFn(fn)
+		if len(callers) == 0 {
+			c.Bad(key, fn.Pos(), "%s", inSide)
+			continue
+		}
+		owning := !sd.csaSkip
+		verdict, reachedOK := "", false
+		for _, cs := range callers {
+			for _, useProxy := range []bool{false, true} {
+				for _, authFails := range []bool{true, false} {
+					called := false
+					f := &Folder{P: p, Assume: func(v ssa.Value) (cval, bool) {
+						switch x := v.(type) {
+						case *ssa.UnOp:
+							if x.Op == token.MUL {
+								if fl := fieldOrigin(x); fl != nil {
+									switch fl.Name() {
+									case "ClientSideAuthentication":
+										return cval{known: true, v: constant.MakeBool(owning)}, true
+									case "UseProxy":
+										return cval{known: true, v: constant.MakeBool(useProxy)}, true
+									}
+								}
+							}
+						case *ssa.Call:
+							if calleeName(x) == "handleAuthentication" {
+								if authFails {
+									return cval{nonNil: true}, true
+								}
+								return cval{isNil: true}, true
+							}
+						}
+						return cval{}, false
+					}, OnCall: func(call *ssa.Call, _ []cval) {
+						if call.Common().StaticCallee() == fn {
+							called = true
+						}
+					}, CallHook: func(call *ssa.Call, _ []cval) (cval, bool) {
+						// only small predicates are evaluated; the side
+						// functions themselves are not entered
+						if sc := call.Common().StaticCallee(); sc != nil && (sc == fn || len(sc.Blocks) > 12) {
+							return unknownVal, true
+						}
+						return cval{}, false
+					}}
+					var args []cval
+					for range cs.Fn.Params {
+						args = append(args, cval{nonNil: true})
 					}
-					if idx == skipIdx {
-						return true
+					f.Eval(cs.Fn, args)
+					if f.Over {
+						verdict = "evaluation budget exceeded in " + fnName(cs.Fn)
+					}
+					if called && authFails {
+						verdict = fmt.Sprintf("%s; and its caller %s still calls it when handleAuthentication fails (UseProxy=%v, ClientSideAuthentication=%v)", inSide, fnName(cs.Fn), useProxy, owning)
+					}
+					if called && !authFails {
+						reachedOK = true
 					}
 				}
 			}
-			return false
 		}
-		hit := reachableAvoidingCut(fn, cut, sd.target, nil)
-		if hit != nil {
-			c.Bad(key, hit.Pos(), "%s is reachable in %s without handleAuthentication()==nil on the side that owns authentication (ClientSideAuthentication=%v skips it here): a request is read/forwarded before the credential check", sd.tname, sd.fn, sd.csaSkip)
-		} else {
-			c.OKH(key, auth.Pos(), "%s unreachable once the handleAuthentication()==nil edge and the ClientSideAuthentication==%v edge are cut", sd.tname, sd.csaSkip)
+		switch {
+		case verdict != "":
+			c.Bad(key, fn.Pos(), "%s", verdict)
+		case !reachedOK:
+			c.Undecided(key, fn.Pos(), "%s; its callers could not be evaluated up to the call", inSide)
+		default:
+			c.OKH(key, callers[0].Pos(), "the caller authenticates first: with ClientSideAuthentication=%v and a failing handleAuthentication, %s is never called (evaluated for both UseProxy settings); with a succeeding one it is", owning, sd.fn)
 		}
 	}
 }
